@@ -73,6 +73,9 @@ class Lifespan:
             await self.app_receive_channel.aclose()
 
     async def wait_for_startup(self) -> None:
+        if self._startup_failure is not None:
+            # However the app has left the lifespan scope since
+            raise LifespanFailureError("startup", self._startup_failure)
         if not self.supported:
             return
 
